@@ -19,6 +19,7 @@ fn main() {
         replay_artefact(&run, "C03", &path);
         run.finish();
     }
+    run.assume("a quarter of the cases uses geo coordinates without matrices: O1 is then given the provider's own approximation (checked independently by C16) and maps locations to indices in the documented first-appearance order");
     run.assume("integral matrices and durations; times compared within the one-unit rounding of the output format, fractional profile scale widens the per-leg split tolerance");
     run.assume("tours containing transit stops, commute or recharge are only checked for per-stop consistency (none are generated here)");
     run_end_to_end(&run, "C03");
@@ -26,7 +27,7 @@ fn main() {
     run.floor("distinct non-trivial (problem shape, config shape) pairs", run.distinct_nontrivial(), 20);
     run.floor("tour statistics recomputed", run.observed("rule_evaluated", "tour-statistic"), 100);
     run.floor("stop loads recomputed", run.observed("rule_evaluated", "stop-load"), 100);
-    for f in ["scale", "multi-places", "open-end", "reloads"] {
+    for f in ["scale", "multi-places", "open-end", "reloads", "coordinates"] {
         run.floor(&format!("feature '{f}' in workload"), run.observed("features", f), 3);
     }
     run.finish();
